@@ -147,6 +147,8 @@ def check_b(ck, repo):
             ck.verdict(a[:2] == [i, m] and a[2:4] == ["X", "association"], "C08.b", ap, inner, "bucket i is predicted by estimators_[i]", f"prediction task arguments {a} do not pair bucket id and model of the same position")
         else:
             ck.violated("C08.b", ap, inner, "prediction tasks do not enumerate self.estimators_")
+    rets = [src_of(r.value) for r in own_nodes(ap.node) if isinstance(r, ast.Return)]
+    ck.verdict(rets == ["pred"], "C08.b", ap, f"returns {rets}", "the only value returned is the array the per-bucket results were scattered into", f"_apply_predict_method returns {rets}: some path bypasses the per-bucket scatter and the fallback for rows whose bucket was empty at training time (bucket id -1)")
     assoc = [s for s in own_nodes(ap.node) if isinstance(s, ast.Assign) and src_of(s.targets[0]) == "association"]
     ck.verdict(len(assoc) == 1 and src_of(assoc[0].value) == "self.transform_bins(X)", "C08.b", ap, assoc[0] if assoc else "association = self.transform_bins(X)", "rows are routed by transform_bins", "rows are not routed by transform_bins(X)")
     ga = [c for c in own_nodes_incl_lambda(ap.node) if isinstance(c, ast.Call) and src_of(c.func) == "getattr"]
@@ -375,6 +377,7 @@ WITNESSES = [
     {"name": "shared-generator-in-list", "file": _F, "rule": "C08.d", "old": "            seeds = rnd.randint(numpy.iinfo(numpy.int32).max, size=len(estimators))\n", "new": "            seeds = [rnd for _ in estimators]\n"},
     {"name": "classifier-predict-argmax", "file": _F, "rule": "C08.b", "old": "        pred = self._apply_predict_method(X, \"predict\", _predict_piecewise_estimator, 1)\n        return pred.astype(numpy.int32)\n", "new": "        proba = self.predict_proba(X)\n        return numpy.argmax(proba, axis=1).astype(numpy.int32)\n"},
     {"name": "key-argmax", "file": _F, "rule": "C08.e", "old": "d = tuple(numpy.asarray(x.todense()).ravel().astype(numpy.int32))", "new": "d = (int(x.argmax()),)", "count": 3},
+    {"name": "single-bucket-fast-path", "file": _F, "rule": "C08.b", "old": "        association = self.transform_bins(X)\n\n        indpred", "new": "        association = self.transform_bins(X)\n        first = int(association[0])\n        if numpy.all(association == first):\n            return getattr(self.estimators_[first], method)(X)\n\n        indpred"},
     {"name": "scatter-wrong", "file": _F, "rule": "C08.c", "old": "    return ind, est.predict_proba(X[ind, :])\n", "new": "    return association != i, est.predict_proba(X[ind, :])\n"},
 ]
 TWINS = [
